@@ -153,7 +153,11 @@ def runCase (src : CTy) (c : Case) (s : Src) (dest : Bool) : Res (Option Stored 
   if !c.supported src then .fault else
   match evalGuards src s c.guards with
   | .ok () =>
-    if dest then .ok (some (doStore c.store s), c.ret)
+    if dest then
+      match evalGuards src s c.destGuards with       -- guards inside `if (dest) { .. }`
+      | .ok () => .ok (some (doStore c.store s), c.ret)
+      | .err e => .err e
+      | .null => .null | .oob => .oob | .fault => .fault
     else if c.guarded then .ok (none, c.ret)
     else .fault                                   -- store through NULL
   | .err e => .err e
